@@ -226,12 +226,21 @@ func (m *BaseUndoLogManager) FlushUndoLog(tranCtx *types.TransactionContext, con
 
 	parseContext := make(map[string]string, 0)
 	parseContext[serializerKey] = undo.UndoConfig.LogSerialization
-	parseContext[compressorTypeKey] = undo.UndoConfig.CompressConfig.Type
-	undoLogContent := m.encodeUndoLogCtx(parseContext)
 	rollbackInfo, err := m.serializeBranchUndoLog(&branchUndoLog, parseContext[serializerKey])
 	if err != nil {
 		return err
 	}
+	// the context names the compressor that was really applied to this rollback info,
+	// because that is what the reader will use to decompress it
+	compressorType := compressor.CompressorNone
+	if undo.UndoConfig.CompressConfig.Enable && len(rollbackInfo) > compressThreshold() {
+		compressorType = compressor.CompressorType(undo.UndoConfig.CompressConfig.Type)
+		if rollbackInfo, err = compressorType.GetCompressor().Compress(rollbackInfo); err != nil {
+			return err
+		}
+	}
+	parseContext[compressorTypeKey] = string(compressorType)
+	undoLogContent := m.encodeUndoLogCtx(parseContext)
 
 	return m.InsertUndoLog(undo.UndologRecord{
 		BranchID:     tranCtx.BranchID,
@@ -240,6 +249,27 @@ func (m *BaseUndoLogManager) FlushUndoLog(tranCtx *types.TransactionContext, con
 		RollbackInfo: rollbackInfo,
 		LogStatus:    undo.UndoLogStatueNormnal,
 	}, conn)
+}
+
+// compressThreshold parses the configured threshold ("64k", "1m", "2048"); 64k when absent or malformed
+func compressThreshold() int {
+	const defaultThreshold = 64 * 1024
+	v := strings.ToLower(strings.TrimSpace(undo.UndoConfig.CompressConfig.Threshold))
+	if v == "" {
+		return defaultThreshold
+	}
+	unit := 1
+	switch {
+	case strings.HasSuffix(v, "k"):
+		unit, v = 1024, strings.TrimSuffix(v, "k")
+	case strings.HasSuffix(v, "m"):
+		unit, v = 1024*1024, strings.TrimSuffix(v, "m")
+	}
+	n, err := strconv.Atoi(strings.TrimSpace(v))
+	if err != nil || n < 0 {
+		return defaultThreshold
+	}
+	return n * unit
 }
 
 // RunUndo undo sql
